@@ -25,6 +25,9 @@ CHECKS = {
  "C08": dict(engine="I", tech=I, ref="DESIGN.md §3 C08",
    text="64-bit layer: every word with popcount <=2 or >=62, every interval, every 16-bit lane pattern and complement, through all 10 iterators and 8 GetN forms for n in {-1,0,1,2,l-1,l,l+1,64,65}, with the sparse threshold set to popcount-1/popcount/popcount+1/9 so both traversal branches run on every word. 1024-bit layer: subsets of a 12-index boundary alphabet with complements and per-word class vectors through 8 iterators and 6 GetN forms under thresholds 0/2/9/64; Set/Unset over int16/int32 indices; algebra on all pairs of a subfamily. Boolean-array model.",
    note="structured families instead of all 2^64 / 2^1024 values; hook VerifSetSparseMagic (overlay) forwards to the internal setter"),
+ "C09": dict(engine="I", tech=I, ref="DESIGN.md §3 C09",
+   text="Marshal->Unmarshal->Equal over member counts around the 63/64 encoding switch in five placements and all subsets of a 12-index alphabet; Unmarshal of all byte strings of length 0..2, length 3-4 over a 6-byte alphabet and structured fills (zero/ff/ascending/one invalid element at each position/duplicates) for every length 5..130 against the denoted set; 64-bit and 32-bit block types over boundary starts (2^22±1, 2^31, 2^32-2, max) with every in-block offset for the tips: iterate-back, same-block acceptance, ascending/descending.",
+   note="structured families instead of all int64/uint32; list-form reverse order of BigU32s is only checked for count (statement is silent on list order)"),
 }
 NA = {}
 
